@@ -88,8 +88,19 @@ def mutation_selftest(prop, limit=6):
                 out["skipped"].append(f"{mid}: pattern not in the current source")
                 continue
             open(f, "w", encoding="utf-8").write(s.replace(old, new, 1))
-            env = dict(os.environ, PYVC_REPO=repo, PYVC_NO_SELFTEST="1", PYVC_OUT_DIR=os.path.join(wt, "out"))
-            c = subprocess.run([os.path.join(VERIF, "check"), prop, "--tier", "quick"], capture_output=True, text=True, env=env)
+            env = dict(os.environ, PYVC_REPO=repo, PYVC_NO_SELFTEST="1", PYVC_OUT_DIR=os.path.join(wt, "out"),
+                       PYVC_BOUNDED_CASE_SECONDS=os.environ.get("PYVC_BOUNDED_CASE_SECONDS", "30"))
+            p = subprocess.Popen([os.path.join(VERIF, "check"), prop, "--tier", "quick"], stdout=subprocess.DEVNULL,
+                                 stderr=subprocess.DEVNULL, env=env, start_new_session=True)
+            try:
+                p.wait(timeout=1500)
+            except subprocess.TimeoutExpired:
+                import signal
+                os.killpg(p.pid, signal.SIGKILL)
+                p.wait()
+                out["skipped"].append(f"{mid}: the check on the mutant did not finish within 1500 s")
+                continue
+            c = p
             (out["killed"] if c.returncode == 1 else out["survived"]).append(f"{mid} ({os.path.basename(path)}): exit {c.returncode}")
         finally:
             subprocess.run(["git", "-C", "/repo", "worktree", "remove", "--force", repo], capture_output=True)
